@@ -465,8 +465,13 @@ class DFunction(Saveable, DataSaveable):
         """Returns spline interpolation of the function
 
         """
-        if not self._splines_initialized:
+        # values of the axis depend on the units in use (FrequencyAxis): 
+        # splines made for other values of the axis are made again
+        ends = (self.axis.data[0], self.axis.data[-1])
+        if ((not self._splines_initialized) 
+            or (getattr(self, "_spline_ends", None) != ends)):
             self._set_splines()
+            self._spline_ends = ends
         return self._spline_value(x)
 
     def _set_splines(self):
